@@ -41,8 +41,8 @@ theorem noOversub_of_wf {e : Emu} (h : WF e) : NoOversub e.phys (absOf e.threads
   rw [runCount_absOf]
   exact (h.cpu g c hc).phys hv
 
-/-- what never changes: the hierarchy, identities, enabled models, and the contents of the
-    model channels (OH* / OA* events do not touch them) -/
+/-- what never changes: the hierarchy, identities, enabled models, run-time channel groups, and the
+    contents of the model channels (OH* / OA* events do not touch them) -/
 def Cpu.static (c : Cpu) : Nat × Nat × Int × Bool := (c.gindex, c.loom, c.index, c.virt)
 def Thread.static (t : Thread) : Nat × Int × Int × Nat × Bool × List (Nat × List (List Value)) :=
   (t.gindex, t.tid, t.pid, t.loom, t.outOfCpu, t.mch.map (fun x => (x.1, x.2.map Chan.vals)))
